@@ -662,6 +662,15 @@ Proof.
   apply nf_bind; [nf0 cost_drop_key|intros _; nf0 cost_drop_val].
 Qed.
 
+Lemma nf_map_serialize : nf map_serialize.
+Proof. unfold map_serialize. apply nf_bind; [nf0 cost_get|]. intros s0. apply nf_bind; [apply nf_rt_iter|intros l; apply nf_ret]. Qed.
+
+Lemma nf_map_deser_in_place items hint : nf (map_deser_in_place c items hint).
+Proof.
+  unfold map_deser_in_place. apply nf_bind; [apply nf_rt_clear|]. intros _.
+  apply nf_bind; [apply nf_rt_reserve|intros _; apply nf_insert_all].
+Qed.
+
 Lemma nf_map_par_iter delta splits : nf (map_par_iter delta splits).
 Proof.
   unfold map_par_iter. apply nf_bind; [apply nf_rt_iter|]. intros l.
